@@ -95,6 +95,15 @@ Theorem C07_multi_existing_untouched : forall refs tr, safe_trace refs tr ->
 Proof. exact multi_existing_untouched. Qed.
 Print Assumptions C07_multi_existing_untouched.
 
+(* the same for the relation the tie evaluates (summary files in either order, see props/C19.v) *)
+Theorem C07_multi_existing_untouched_either_order : forall refs tr, safe_trace_sym refs tr ->
+  (forall s q, In q refs -> lookup q (run_trace tr s) = lookup q s)
+  /\ (forall p t, In (OpenW p t) tr -> ~ In p refs)
+  /\ (forall c, In c tr ->
+        match c with Rename a b => ~ In a refs /\ ~ In b refs | Remove p => ~ In p refs | _ => True end).
+Proof. exact sym_existing_untouched. Qed.
+Print Assumptions C07_multi_existing_untouched_either_order.
+
 (* fresh names: with off = find_max_part of the referenced paths, every file the append creates
    (row group i of the append is part.<off+i>.parquet in each of its partition directories) is
    none of the referenced files and none of the two summary files *)
